@@ -19,6 +19,15 @@ impl Eq for ModuleReference {}
 #[verifier::external]
 impl std::hash::Hash for ModuleReference { fn hash<H: std::hash::Hasher>(&self, state: &mut H) { unimplemented!() } }
 
+/// ModuleReference::ROOT: not a module of the workspace; the signatures of the builtin classes live under it
+uninterp spec fn root_reference() -> ModuleReference;
+impl ModuleReference {
+  /// R3: `*mod_ref != ModuleReference::ROOT` (derived PartialEq against the named constant)
+  #[verifier::external_body]
+  fn is_not_root(&self) -> (r: bool) ensures r == (*self != root_reference()) { unimplemented!() }
+}
+uninterp spec fn builtin_signature() -> ModuleSignature;
+
 // ---- R7: opaque payloads
 #[verifier::external_body]
 struct Heap { _p: u8 }
@@ -33,14 +42,17 @@ struct ErrorSet { _p: u8 }
 impl ErrorSet {
   /// the modules whose syntax errors (from parsing their current text) are in this set
   pub uninterp spec fn covers(&self, m: ModuleReference) -> bool;
+  /// the set holds syntax errors of a text of m that is no longer m's text (m was parsed again into the same set)
+  pub uninterp spec fn stale(&self, m: ModuleReference) -> bool;
   #[verifier::external_body]
-  fn new() -> (r: ErrorSet) ensures forall|m: ModuleReference| !r.covers(m) { unimplemented!() }
+  fn new() -> (r: ErrorSet) ensures forall|m: ModuleReference| !r.covers(m) && !r.stale(m) { unimplemented!() }
   /// the reported errors, abstractly (unit errgate: merge is the union, nothing is lost)
   pub uninterp spec fn reported(&self) -> Set<int>;
   #[verifier::external_body]
   fn merge(&mut self, other: ErrorSet)
     ensures final(self).reported() == old(self).reported().union(other.reported()),
-      forall|m: ModuleReference| #[trigger] final(self).covers(m) == old(self).covers(m)
+      forall|m: ModuleReference| #[trigger] final(self).covers(m) == old(self).covers(m),
+      forall|m: ModuleReference| #[trigger] final(self).stale(m) == old(self).stale(m)
   { unimplemented!() }
 }
 /// the import relation of a set of parsed modules, and what a module's signature / check result is computed from
@@ -173,11 +185,25 @@ mod samlang_parser {
   #[verifier::external_body]
   pub fn parse_source_module_from_text(text: &String, m: ModuleReference, heap: &mut Heap, error_set: &mut ErrorSet) -> (r: ParsedModule)
     ensures r == parse_of(text@, m),
-      forall|x: ModuleReference| #[trigger] final(error_set).covers(x) == (x == m || old(error_set).covers(x))
+      forall|x: ModuleReference| #[trigger] final(error_set).covers(x) == (x == m || old(error_set).covers(x)),
+      // parsing a module again into a set that already holds the syntax errors of an earlier text of it leaves those behind
+      forall|x: ModuleReference| #[trigger] final(error_set).stale(x) == (old(error_set).stale(x) || (x == m && old(error_set).covers(m)))
   { unimplemented!() }
 }
 #[verifier::external_body]
 fn build_module_signature(m: ModuleReference, p: &ParsedModule) -> (r: ModuleSignature) ensures r == signature_of(m, *p) { unimplemented!() }
+
+/// server_state::merge_error_sets (a `for (_, e) in map` loop, no vstd specification): the union of the per-module sets
+#[verifier::external_body]
+fn merge_error_sets(sets: HashMap<ModuleReference, ErrorSet>) -> (r: ErrorSet)
+  ensures
+    forall|m: ModuleReference| #[trigger] r.covers(m) == (exists|k: ModuleReference| sets@.contains_key(k) && sets@[k].covers(m)),
+    forall|m: ModuleReference| #[trigger] r.stale(m) == (exists|k: ModuleReference| sets@.contains_key(k) && sets@[k].stale(m)),
+{ unimplemented!() }
+/// every per-module set holds the syntax errors of its own module's latest text and nothing stale
+spec fn per_module_sets_ok(sets: Map<ModuleReference, ErrorSet>) -> bool {
+  forall|k: ModuleReference| sets.contains_key(k) ==> (#[trigger] sets[k]).covers(k) && (forall|x: ModuleReference| !sets[k].stale(x))
+}
 
 /// R6: the server state reduced to the tables the three entry points touch
 struct ServerState {
@@ -195,7 +221,10 @@ impl ServerState {
   /// the tables describe the same set of modules, each signature is the one of its parsed module
   spec fn tables_agree(&self) -> bool {
     &&& self.parsed_modules@.dom() == self.string_sources@.dom()
-    &&& self.parsed_modules@.dom() == self.global_cx@.dom()
+    // the global context holds the signature of every module and, under ROOT, the signatures of the builtin classes
+    &&& self.global_cx@.dom() == self.parsed_modules@.dom().insert(root_reference())
+    &&& !self.parsed_modules@.contains_key(root_reference())
+    &&& self.global_cx@[root_reference()] == builtin_signature()
     &&& forall|m: ModuleReference| self.parsed_modules@.contains_key(m) ==> #[trigger] self.global_cx@[m] == signature_of(m, self.parsed_modules@[m])
   }
 
@@ -207,6 +236,8 @@ impl ServerState {
       // syntax errors in error_set (they replace the old ones), and every module whose parsed form is new is flagged (its old
       // syntax errors must not be kept)
       forall|m: ModuleReference| reparsed@.contains(m) ==> error_set.covers(m),
+      // .. and they are the syntax errors of the modules' CURRENT texts: nothing left over from a text that was replaced in the same round
+      forall|m: ModuleReference| !error_set.stale(m),
       forall|m: ModuleReference| #[trigger] changed(old(self).last_checked@, old(self).parsed_modules@)(m) && old(self).parsed_modules@.contains_key(m)
         ==> reparsed@.contains(m),
       old(self).tables_agree(),                                                    // parsed modules + global context updated
@@ -227,6 +258,7 @@ impl ServerState {
 
 //@extract crates/samlang-services/src/server_state.rs :: impl ServerState / fn remove
 //@replace module_references.iter().copied().collect() => set_of_slice(module_references) ## R3: iterator adapter: the set of the slice's elements
+//@replace if *mod_ref != ModuleReference::ROOT { => if mod_ref.is_not_root() { ## R3: comparison with the named constant of the opaque reference
 //@contract
     requires
       vstd::std_specs::hash::obeys_key_model::<ModuleReference>(),
@@ -235,6 +267,7 @@ impl ServerState {
       // (that `recheck` is reached with its preconditions is proved at the call)
       final(self).steady(),  // :remove_leaves_the_server_in_a_steady_state
       forall|m: ModuleReference| module_references@.contains(m) ==> !final(self).parsed_modules@.contains_key(m),  // :removed_modules_are_gone
+      final(self).global_cx@.contains_key(root_reference()) && final(self).global_cx@[root_reference()] == builtin_signature(),  // :the_builtin_signatures_are_never_removed
       forall|m: ModuleReference| !module_references@.contains(m) && old(self).parsed_modules@.contains_key(m)
         ==> final(self).parsed_modules@.contains_key(m) && final(self).parsed_modules@[m] == old(self).parsed_modules@[m],  // :other_modules_are_kept
 //@loop 0 iter=it
@@ -247,6 +280,11 @@ impl ServerState {
       forall|m: ModuleReference| #[trigger] self.parsed_modules@.contains_key(m) <==> old(self).parsed_modules@.contains_key(m)
         && !(exists|j: int| 0 <= j < it.index() && module_references@[j] == m),
       forall|m: ModuleReference| self.parsed_modules@.contains_key(m) ==> #[trigger] self.parsed_modules@[m] == old(self).parsed_modules@[m],
+//@loopend 0
+      proof {
+        assert(self.parsed_modules@.dom() =~= self.string_sources@.dom());
+        assert(self.global_cx@.dom() =~= self.parsed_modules@.dom().insert(root_reference()));
+      }
 //@before self.recheck(ErrorSet::new(), &HashSet::new(), &recheck_set);
     proof {
       let before = old(self).parsed_modules@;
@@ -274,6 +312,8 @@ impl ServerState {
     requires
       vstd::std_specs::hash::obeys_key_model::<ModuleReference>(),
       old(self).steady(),
+      // assumed of the caller (the language server allocates a reference for every URL it is given a text for): ROOT is never given a text
+      forall|j: int| 0 <= j < updates@.len() ==> (#[trigger] updates@[j]).0 != root_reference(),
     ensures
       final(self).steady(),  // :update_leaves_the_server_in_a_steady_state
       // every updated module now holds the parse of (the last of) its new texts; the others are untouched
@@ -285,15 +325,25 @@ impl ServerState {
     invariant
       vstd::std_specs::hash::obeys_key_model::<ModuleReference>(),
       it.seq() == updates@,
+      forall|j: int| 0 <= j < updates@.len() ==> (#[trigger] updates@[j]).0 != root_reference(),
       self.tables_agree(),
       self.last_checked == old(self).last_checked,
       forall|m: ModuleReference| !(exists|j: int| 0 <= j < it.index() && updates@[j].0 == m) ==>
         (#[trigger] self.parsed_modules@.contains_key(m) == old(self).parsed_modules@.contains_key(m))
         && (old(self).parsed_modules@.contains_key(m) ==> self.parsed_modules@[m] == old(self).parsed_modules@[m]),
       forall|j: int| 0 <= j < it.index() ==> self.parsed_modules@.contains_key(#[trigger] updates@[j].0),
-      forall|j: int| 0 <= j < it.index() ==> error_set.covers(#[trigger] updates@[j].0),
-//@before self.recheck(error_set, &initial_update_set, &recheck_set);
+      forall|j: int| 0 <= j < it.index() ==> syntax_errors@.contains_key(#[trigger] updates@[j].0),
+      per_module_sets_ok(syntax_errors@),
+//@loopend 0
+      proof {
+        assert(self.parsed_modules@.dom() =~= self.string_sources@.dom());
+        assert(self.global_cx@.dom() =~= self.parsed_modules@.dom().insert(root_reference()));
+      }
+//@before self.recheck(merge_error_sets(syntax_errors), &initial_update_set, &recheck_set);
     proof {
+      assert forall|m: ModuleReference| initial_update_set@.contains(m) implies syntax_errors@.contains_key(m) && syntax_errors@[m].covers(m) by {
+        lemma_updated_modules(updates@);
+      }
       let now = self.parsed_modules@;
       let upd = in_set(updated_modules(updates@));
       lemma_updated_modules(updates@);
@@ -311,6 +361,8 @@ impl ServerState {
     requires
       vstd::std_specs::hash::obeys_key_model::<ModuleReference>(),
       old(self).steady(),
+      // assumed of the caller: ROOT is never renamed and nothing is renamed to ROOT
+      forall|j: int| 0 <= j < renames@.len() ==> (#[trigger] renames@[j]).0 != root_reference() && renames@[j].1 != root_reference(),
     ensures
       final(self).steady(),  // :rename_leaves_the_server_in_a_steady_state
       forall|m: ModuleReference| !renamed_modules(renames@).contains(m) ==>
@@ -320,8 +372,10 @@ impl ServerState {
     invariant
       vstd::std_specs::hash::obeys_key_model::<ModuleReference>(),
       it.seq() == renames@,
+      forall|j: int| 0 <= j < renames@.len() ==> (#[trigger] renames@[j]).0 != root_reference() && renames@[j].1 != root_reference(),
       self.tables_agree(),  // :every_signature_is_the_one_of_the_current_parsed_module
-      forall|m: ModuleReference| reparsed@.contains(m) ==> error_set.covers(m),
+      forall|m: ModuleReference| reparsed@.contains(m) ==> syntax_errors@.contains_key(m),
+      per_module_sets_ok(syntax_errors@),
       // a module that exists and is not flagged as parsed again has the parsed form it had before
       forall|m: ModuleReference| #[trigger] self.parsed_modules@.contains_key(m) && !reparsed@.contains(m)
         ==> old(self).parsed_modules@.contains_key(m) && self.parsed_modules@[m] == old(self).parsed_modules@[m],
@@ -334,9 +388,9 @@ impl ServerState {
 //@loopend 0
       proof {
         assert(self.parsed_modules@.dom() =~= self.string_sources@.dom());
-        assert(self.parsed_modules@.dom() =~= self.global_cx@.dom());
+        assert(self.global_cx@.dom() =~= self.parsed_modules@.dom().insert(root_reference()));
       }
-//@before self.recheck(error_set, &reparsed, &recheck_set);
+//@before self.recheck(merge_error_sets(syntax_errors), &reparsed, &recheck_set);
     proof {
       let before = old(self).parsed_modules@;
       let now = self.parsed_modules@;
